@@ -127,12 +127,24 @@ func c12Rt(r *rng, id string) {
 	defer snd.m.Shutdown()
 	rc := c
 	rc.name = "R"
+	// sometimes the receiver leaves the label check to an outer layer, which strips the header first
+	skipRcv := c.label != "" && r.chance(1, 4)
+	rc.skipIn = skipRcv
 	rcv, err := newCnode(rc)
 	if err != nil {
 		emit("C12 rt id=%s err=create", id)
 		return
 	}
 	defer rcv.m.Shutdown()
+	strip := func(b []byte) []byte {
+		if !skipRcv {
+			return b
+		}
+		if nb, _, err := ml.RemoveLabelHeaderFromPacket(b); err == nil {
+			return nb
+		}
+		return b
+	}
 	crc := r.chance(1, 2)
 	pmax := uint8(4)
 	if crc {
@@ -145,6 +157,9 @@ func c12Rt(r *rng, id string) {
 		payload[0] = []byte{244, 12, 9, 7, 10, 0, 1}[r.intn(7)]
 	}
 	path := []string{"pkt", "str", "pp"}[r.intn(3)]
+	if skipRcv && path == "pp" {
+		path = "str"
+	}
 	wire, got, pan := 0, "-", 0
 	ngot := -1
 	func() {
@@ -166,7 +181,7 @@ func c12Rt(r *rng, id string) {
 				return
 			}
 			wire = len(pk[0])
-			rcv.ingest(pk[0])
+			rcv.ingest(strip(pk[0]))
 			msgs := rcv.del.take()
 			ngot = len(msgs)
 			got = hexList(msgs)
@@ -177,6 +192,7 @@ func c12Rt(r *rng, id string) {
 			}
 			data := captureStream(snd, func() { snd.m.SendReliable(to, payload) })
 			wire = len(data)
+			data = strip(data)
 			ml.VerifHandleConn(rcv.m, newFragConn(data, randCuts(r, len(data))))
 			msgs := rcv.del.take()
 			ngot = len(msgs)
